@@ -826,6 +826,9 @@ for _n in ("zeros_like", "ones_like"):
 
 @recipe("where", "selection")
 def _where(draw, og):
+    if getattr(og, "mode", "") == "const" and draw(st.integers(0, 7)) == 0:
+        # the one-argument form: the indices of the non-zero elements (plain index arrays, compared by C11)
+        return {"args": [P(og.array(draw, min_ndim=1))], "kw": {}}
     target = draw(gen.shape_st(3))
     cshape = gen.broadcast_member(draw, target)
     size = gen.size_of(cshape)
